@@ -13,7 +13,7 @@ FEATURES = {
     "class": "class K_:\n    a = 1\n    def m(s_):\n        return s_.a\nprint(K_().m())",
     "import": "import math\nprint(math.floor(2.5))",
     "from-import": "from math import floor as fl_\nprint(fl_(3.5))",
-    "destructuring": "a1_, *b1_ = [1, 2, 3]\nprint(a1_, b1_)",
+    "destructuring": "a1_, *b1_ = [1, 2, 3]\n(c1_, d1_), e1_ = (4, 5), 6\nfor (f1_, g1_), h1_ in [((7, 8), 9)]:\n    print(f1_, g1_, h1_)\nprint(a1_, b1_, c1_, d1_, e1_)",
     "aug-subscript": "d1_ = [1, 2]\nd1_[0:1] += [5]\nd1_[0] += 1\nprint(d1_)",
     "chain-wrapper": "print(1)\nprint(2)\nprint(3)",
     "global-store": "def g1_():\n    global G1_\n    G1_ = 5\ng1_()\nprint(G1_)",
@@ -106,6 +106,19 @@ def main(argv):
     kfs = {k["kf"]: k for k in load_known_findings("C09") if k.get("status") == "open"}
     items = []
     idx = 0
+    own_import_failures = []
+    # the helper modules imported by the script itself (not a rebinding: must work)
+    for modname in ("itertools", "importlib"):
+        for feat in FEATURES:
+            for order in ("before", "after"):
+                use = "print(next(itertools.count(5)))" if modname == "itertools" else "print(importlib.import_module('math').floor(2.5))"
+                src = (f"import {modname}\n{FEATURES[feat]}\n{use}\n" if order == "before" else f"{FEATURES[feat]}\nimport {modname}\n{use}\n")
+                for cfg in (gen_prog.CONFIGS if ck.tier == "thorough" else [gen_prog.CONFIGS[(len(feat) + len(order)) % 8]]):
+                    v, text = gen_prog.behaviour_check(ol, src, cfg)
+                    ck.case(f"own-import|{cfg}|{src}", nontrivial=not v.startswith("skip"))
+                    ck.count("own-import:" + v.split(":")[0])
+                    if v.startswith("fail"):
+                        own_import_failures.append((modname, "imports-the-module-itself:" + order, feat, cfg, v, src, text))
     for X in RISKY:
         for role in ROLES:
             for feat in FEATURES:
@@ -114,7 +127,7 @@ def main(argv):
                 for cfg in cfgs:
                     items.append((X, role, feat, cfg))
     results = par.pmap(observe, items)
-    failing = []
+    failing = list(own_import_failures)
     kf_seen = {}
     pairs = []
     for (X, role, feat, cfg), (v, src, text) in zip(items, results):
@@ -134,7 +147,7 @@ def main(argv):
                 kf_seen[kf] = (X, role, feat)
             else:
                 failing.append((X, role, feat, cfg, v, src, text))
-        if (len(src) + len(X)) % 5 == 0:
+        if (len(src) + len(X)) % 5 == 0 or feat == "destructuring":
             pairs.append((src, (cfg[1], cfg[2])))
         if len(ck.samples) < 4 and v == "ok" and X in ("_", "k", "self") and role in ("global", "class-attribute") and feat in ("while", "class"):
             ck.sample({"identifier": X, "role": role, "feature": feat, "source": src})
